@@ -111,7 +111,9 @@ def compare(ctx, key, s, out, ref, wit):
     if isinstance(got, np.ndarray) != isinstance(ref[1], np.ndarray):
         ctx.violation(key + ':type', 'got %r, reference %r' % (got, ref[1]), wit)
         return False
-    if not G.close(got, ref[1], ref[2]):
+    with np.errstate(all='ignore'):
+        is_close = G.close(got, ref[1], ref[2])
+    if not is_close:
         ctx.violation(key + ':value', 'got %r, reference %r' % (got, ref[1]), dict(wit, got=got, reference=ref[1]))
         return False
     return True
@@ -430,6 +432,11 @@ HAND_LISTED = [
 ]
 
 
+def _allclose(got, want):
+    with np.errstate(all='ignore'):      # the harness's own arithmetic must not depend on the library's process-wide numpy error state
+        return bool(np.allclose(np.asarray(got, dtype=complex), np.asarray(want, dtype=complex), rtol=1e-9, atol=1e-300))
+
+
 def run_hand_listed(ctx):
     from mitxgraders.helpers.calc import evaluator, DEFAULT_FUNCTIONS, DEFAULT_VARIABLES
     variables = dict(DEFAULT_VARIABLES, x=3.0, y=5.0)
@@ -452,7 +459,7 @@ def run_hand_listed(ctx):
                 ctx.violation('C03:hand_listed:error_for_valid:' + type(out.exc).__name__, '%r raised %r; its value is %r' % (s_, out.exc, want), wit)
             elif numeric:
                 ctx.violation('C03:hand_listed:warning', '%r emitted %r' % (s_, numeric[:2]), wit)
-            elif not np.allclose(np.asarray(out.value, dtype=complex), np.asarray(want, dtype=complex), rtol=1e-9, atol=1e-300):
+            elif not _allclose(out.value, want):
                 ctx.violation('C03:hand_listed:value', '%r = %r, expected %r' % (s_, out.value, want), wit)
 
 
